@@ -204,6 +204,11 @@ func (mr *modelRun) execNode(p *Plan, path, statePath string, n *Node, in M) (M,
 		out = in
 	case KLambda:
 		c := Canon(in)
+		name, full := n.Key, full
+		if n.Twin != "" {
+			// built from a Lambda value shared with another node: one function, one record
+			name, full = n.Twin, joinPath(path, n.Twin)
+		}
 		idx := mr.execCount[full]
 		mr.execCount[full] = idx + 1
 		mr.res.Execs = append(mr.res.Execs, Exec{Path: full, Input: c})
@@ -215,7 +220,7 @@ func (mr *modelRun) execNode(p *Plan, path, statePath string, n *Node, in M) (M,
 			mr.failPath = full
 			return nil, ErrNode
 		}
-		out = M{n.Key: NodeValue(n.Key, c)}
+		out = M{name: NodeValue(name, c)}
 		if n.Interim {
 			out["z:"+n.Key] = 0
 		}
